@@ -16,7 +16,7 @@ store_n = n
 if "--round" in sys.argv:
     rnd = int(sys.argv[sys.argv.index("--round") + 1])
     seed = "/tmp/seed%d-%s/SEED" % (rnd, ID)
-    store_n = str(int(n) + 2 * (rnd - 1))
+    store_n = str(int(n) + 2 * (rnd - 1)) if rnd <= 5 else str(10 + (rnd - 5))  # rounds 6+: one change per property
 env = dict(os.environ, GOFLAGS="-mod=mod", GOPROXY="off", GOSUMDB="off", GOTOOLCHAIN="local")
 def sh(cmd, cwd=None, timeout=3000, e=None):
     r = subprocess.run(cmd, shell=True, cwd=cwd, env=e or env, capture_output=True, text=True, timeout=timeout)
